@@ -31,6 +31,10 @@ KEY = "kopfexamples/ns/a"
 THEOREMS = [("Kopf.Props.X01", "Kopf.X01." + n) for n in [
     "reactor_refines_loop", "clockFwd_of_wf", "reactor_iter_refines", "reactor_converges", "no_stale_handling",
     "no_stale_handling_created", "no_stale_handling_step_partial",
+]] + [("Kopf.Props.X01_Drain", "Kopf.X01." + n) for n in [
+    "work_queue_le", "work_queue_lt_of_no_version", "witer_queue_le", "stale_then_converges_partial",
+]] + [("Kopf.Props.X01_Variant", "Kopf.X01." + n) for n in [
+    "workA_arrive", "runActsA_arrive", "lax_arrival_witness",
 ]]
 
 
@@ -89,6 +93,15 @@ def gen_scenario(rng: Any, i: int) -> dict:
     if rng.random() < 0.35:
         timeline.append([t_quiet, "edit", "a", {"spec": {"x": 900}}])
         t_quiet += 6 * horizon + 6
+    if rng.random() < 0.4:
+        # deletion with the framework's finalizer: a mandatory delete handler (the finalizer is added in a turn of its own — on a
+        # stale view its JSON-patch is refused with 422 and the next event decides anew), a deletion request at the end, the release
+        handlers.append({"kind": "delete", "id": "x0", "script": script() if rng.random() < 0.4 else [], "default": "ok",
+                         "opts": {"backoff": 0.25}})
+        if rng.random() < 0.6:      # a foreign edit right behind the creation: the first view is stale when the finalizer is added
+            timeline.append([t_create + rng.choice([1, 2, 3]) / 64.0, "edit", "a", {"spec": {"x": 700}}])
+        timeline.append([t_quiet, "delete", "a"])
+        t_quiet += 6 * horizon + 6
     return {"seed": i, "handlers": handlers, "timeline": timeline, "objects": [], "slips": [],
             "settings": {"persistence.consistency_timeout": T, "queueing.idle_timeout": rng.choice([1.0, 5.0, 5.0]),
                          "execution.default_backoff": 1.0, "watching.reconnect_backoff": 0.125},
@@ -114,9 +127,18 @@ def abstract(sc: dict, tr: dict) -> dict:
     if not hist:
         raise Skip("no-object")
     uid = hist[0]["body"]["metadata"]["uid"]
-    if any(v["body"]["metadata"].get("uid") != uid or v["event"] == "DELETED" for v in hist):
-        raise Skip("several-incarnations-or-deleted")
+    if any(v["body"]["metadata"].get("uid") != uid for v in hist) or any(v["event"] == "DELETED" for v in hist[:-1]):
+        raise Skip("several-incarnations")
+    deleted_rv = str(hist[-1]["body"]["metadata"]["resourceVersion"]) if hist[-1]["event"] == "DELETED" else None
     cycles = [c for c in tr["cycles"] if c["uid"] == uid]
+    # the DELETED event of an object the framework itself released: C03's loop has no event for it (nothing is pending after
+    # the release); what the worker does with it (cause GONE: nothing) is not compared
+    n_gone = 0
+    while cycles and cycles[-1]["event_type"] == "DELETED":
+        cycles.pop()
+        n_gone += 1
+    if any(c["event_type"] == "DELETED" for c in cycles):
+        raise Skip("events-after-the-DELETED-one")
     if not cycles or any(c.get("error") for c in cycles):
         raise Skip("cycle-error-or-none")
     if any(c.get("c07") is None or c["c07"].get("t_out") is None or c.get("cause") is None for c in cycles):
@@ -156,6 +178,11 @@ def abstract(sc: dict, tr: dict) -> dict:
                 if str(arv) in writer and writer[str(arv)] != q["cycle"]:
                     raise Skip("version-claimed-twice")
                 writer[str(arv)] = q["cycle"]
+    if deleted_rv is not None:
+        rel = [c["i"] for c in cycles if str(c.get("result_rv") or "").endswith("~which~never~arrives")]
+        if not deliv[deleted_rv].get("own") or len(rel) != 1:
+            raise Skip("deleted-not-by-one-release")
+        writer[deleted_rv] = rel[0]
     wrote: dict[int, list[str]] = {}
     for rv, ci in writer.items():
         wrote.setdefault(ci, []).append(rv)
@@ -185,6 +212,8 @@ def abstract(sc: dict, tr: dict) -> dict:
     pos = 0
     for li, life in enumerate(lives):
         gets = [g for g in life["gets"] if g[1] != "EOS"]
+        if li == len(lives) - 1 and n_gone:
+            gets = gets[:len(gets) - n_gone]
         if li > 0 and gets and pos < len(cycles):
             prev = lives[li - 1]
             if prev["t_end"] is None:
@@ -193,6 +222,8 @@ def abstract(sc: dict, tr: dict) -> dict:
         pos += len(gets)
     if pos != len(cycles):
         raise Skip("cycles-do-not-match-dequeues")
+    conflict = {q["cycle"] for q in tr["requests"] if q.get("method") == "PATCH" and "/kopfexamples/" in q.get("path", "")
+                and q.get("cycle") is not None and q.get("response") == 422}
 
     tables: dict[int, dict[str, dict[str, dict]]] = {}
     for c in cycles:
@@ -252,6 +283,8 @@ def abstract(sc: dict, tr: dict) -> dict:
             "writes": per_cycle_reqs.get(c["i"], 0),
             "_cycle": c["i"], "_result_rv": c.get("result_rv"), "_own_rv": mine[0] if mine else None,
             "_sleep": None if c7.get("sleep") is None else bool(c7["sleep"].get("timed_out")),
+            "_released": bool(mine and mine[0] == deleted_rv), "_422": c["i"] in conflict,
+            "_fin": ((c.get("apply") or {}).get("fns") or [None])[0] if c.get("pcc") is None else None,
         })
 
     for v in hist[1:]:
@@ -280,8 +313,12 @@ def abstract(sc: dict, tr: dict) -> dict:
                 return c["loop_t0"] + (c["t1"] - c["t0"]) < t_f
             while pending and pending[0]["i"] not in wrote and before(pending[0]):
                 emit_cycle(pending.pop(0), cur)
+            was_marked = bool(cur["metadata"].get("deletionTimestamp"))
             cur = v["body"]
-            acts.append({"foreign": [ess_id(cur), lt(deliv[rv]["t_emit"] + deliv[rv]["delay"])]})
+            if bool(cur["metadata"].get("deletionTimestamp")) and not was_marked:
+                acts.append({"delete": lt(deliv[rv]["t_emit"] + deliv[rv]["delay"])})     # somebody's deletion request
+            else:
+                acts.append({"foreign": [ess_id(cur), lt(deliv[rv]["t_emit"] + deliv[rv]["delay"])]})
             impl.append(None)
     while pending:
         c = pending.pop(0)
@@ -293,7 +330,8 @@ def abstract(sc: dict, tr: dict) -> dict:
         "T": ticks(float(sc["settings"]["persistence.consistency_timeout"])),
         "idle": ticks(float(sc["settings"]["queueing.idle_timeout"])),
         "decls": pp["decls"], "matched": pp["matched"], "subs": [], "lifecycle": sc.get("lifecycle") or "asap",
-        "limits": pp["limits"], "outcomes": {}, "prematch": True, "changeReq": False, "foreignFins": False,
+        "limits": pp["limits"], "outcomes": {}, "prematch": True,
+        "changeReq": any(h["kind"] == "delete" and not h.get("opts", {}).get("optional") for h in sc["handlers"]), "foreignFins": False,
         "constPatch": False, "lat": lat, "rtt": lat, "cap": cap, "universe": owned,
         "ess": e0, "now": lt(d0["t_emit"] + d0["delay"]), "noticed": cycles[0]["event_type"] is None, "acts": acts}]
     return {"req": req, "impl": impl, "T": sc["settings"]["persistence.consistency_timeout"],
@@ -426,13 +464,25 @@ def run_reactor(ctx: Any, traces: list[dict] | None = None, n: int | None = None
             continue
         for k, (a, im, m) in enumerate(zip(acts, t["impl"], steps)):
             if im is None:
+                if "delete" in a:
+                    ctx.count("x01_paths", "delete act: somebody's deletion request (marked, held by the finalizer)")
                 continue
             rep = {**rep0, "step": k, "cycle": im["_cycle"]}
             if not m.get("work"):
                 ctx.compare("X01 worker iteration: the model has an event to dequeue", {"work": True}, {"work": False}, rep)
                 break
-            real = {key: im[key] for key in KEYS}
-            model = {key: m[key] for key in KEYS}
+            keys = [k2 for k2 in KEYS if not (im["_released"] and k2 in ("P", "base", "blocked"))]
+            real = {key: im[key] for key in keys}
+            model = {key: m[key] for key in keys}
+            if im["_released"]:
+                model["gone"], real["gone"] = m["gone"], True
+                ctx.count("x01_paths", "release: the finalizer removed, the object gone, the version that never arrives")
+            if im["_422"]:
+                ctx.count("x01_paths", "finConflict-422: a stale view's finalizer JSON-patch refused, the next event decides anew")
+            if im["_fin"] in ("block_deletion", "allow_deletion") and not im["_422"] and not im["_released"]:
+                ctx.count("x01_paths", "finalizer turn: " + im["_fin"])
+            if m.get("reason") == "delete" and not held:
+                ctx.count("x01_paths", "deletion handled (cause DELETE on a marked, blocked object)")
             model["entered"] = m["entered"] is not None
             held = bool(im["held"])
             released_by_timeout = im["given"] is not None and not held and im["entered"]
@@ -450,7 +500,7 @@ def run_reactor(ctx: Any, traces: list[dict] | None = None, n: int | None = None
                 # GLUE 2: the changing stage ran on a STALE view and its PATCH changed nothing on the server: no version
                 ctx.count("x01_view", "stale view processed, its PATCH was a server-side no-op (no version made)")
             if m["stale"] and not held and im["entered"] and im["patched"] is not None and m["patched"] is None and im["invoked"] \
-                    and {k2: real[k2] for k2 in KEYS if k2 != "patched"} == {k2: model[k2] for k2 in KEYS if k2 != "patched"}:
+                    and {k2: real[k2] for k2 in real if k2 != "patched"} == {k2: model[k2] for k2 in model if k2 != "patched"}:
                 # stated limit of C02's record abstraction (`Rec` has no `stopped` timestamp): a handler re-run on a stale view
                 # after the timeout writes a record that differs from the stored one in that field only — the server makes a
                 # version, the model sees a no-op. The rest of this history is not compared.
@@ -459,7 +509,10 @@ def run_reactor(ctx: Any, traces: list[dict] | None = None, n: int | None = None
             if not ctx.compare("X01 composed worker iteration (view version, time, barrier decision, invocations, version "
                                "returned, object/memory after)", real, model, rep):
                 break       # the model's state has diverged: later iterations of this history say nothing new
-            if im["_own_rv"] is not None and im["_result_rv"] is not None:
+            if im["_released"]:
+                ctx.compare("X01 the release is answered with a version that never arrives (the model's `never` flag)", {"never": True},
+                            {"never": str(im["_result_rv"] or "").endswith("~which~never~arrives")}, rep)
+            elif im["_own_rv"] is not None and im["_result_rv"] is not None:
                 ok = str(im["_result_rv"]).split("~")[0] == str(im["_own_rv"])
                 ctx.compare("X01 the version application.apply returned is the version the cycle's write made", {"ok": True}, {"ok": ok}, rep)
 
